@@ -23,7 +23,7 @@
     shortcuts' parser_args alike.  The invariant behind every theorem: no context key and no object of a run's
     own heap ever points into the definition heap (AliasProofs.pinv with the empty taint set). *)
 From Coq Require Import List String ZArith.
-From PV Require Import Alias AliasProofs.
+From PV Require Import Alias AliasProofs GenC12 GenC12Proofs.
 Import ListNotations.
 Open Scope string_scope.
 
@@ -80,15 +80,40 @@ Theorem C12_interleaving : forall dh (sch : list (nat * op)) (inits : nat -> lis
 Proof. exact interleaving_all. Qed.
 Print Assumptions C12_interleaving.
 
+(** (4) Tie B: the model's transfer-point table is the one tools/py2coq_c12.py extracts from
+    the CURRENT source ([gen_transfer], Gen/GenC12.v): Step.set_step_input_context,
+    steps/configvars.py, Pipeline.new_pipe_and_args (shortcut args and parser_args),
+    Step.save_error (onError), Step.foreach_loop, steps/pype.py get_arguments, and the formatter
+    (Context.get_formatted_value -> RecursiveFormatter.vformat -> _get_formatted_iterable). *)
+Theorem C12_source_transfer_points_is_model : forall tp, gen_transfer tp = model_discipline tp.
+Proof. exact gen_transfer_is_model. Qed.
+Print Assumptions C12_source_transfer_points_is_model.
+
+(** the machine built from the source's table is the model's [step] ... *)
+Theorem C12_source_machine_is_model : forall dh p o, step_of gen_transfer dh p o = step dh p o.
+Proof. exact gen_machine_is_model. Qed.
+Print Assumptions C12_source_machine_is_model.
+
+Theorem C12_source_runs_is_model : forall ops dh p, exec (step_of gen_transfer) dh p ops = run dh p ops.
+Proof. exact gen_exec_is_model. Qed.
+Print Assumptions C12_source_runs_is_model.
+
+(** ... and (proved from the generated table alone: no point is by reference) it never writes
+    the definition heap, whatever the operations *)
+Theorem C12_source_no_def_mutation : forall dh r,
+  fst (exec (step_of gen_transfer) dh (start r) (r_ops r)) = dh.
+Proof. exact gen_machine_run_unchanged. Qed.
+Print Assumptions C12_source_no_def_mutation.
+
 (* ---------------------------------------------------------------- non-vacuity *)
 (* `in: {k: [1, 2]}`, append 3 to k in place; keep a by-reference alias; merge into it *)
 Definition defs0 : list tree := [TList [TInt 1; TInt 2]].
 Definition run_a : runspec :=
   mkrun [("z", TList [TInt 0])]
-        [InjectIn "k" (CPtr (D 0)); AppendKey "k" (TInt 3); SetFmt "r" (TRef RFlat "k");
+        [InjectIn TPIn "k" (CPtr (D 0)); AppendKey "k" (TInt 3); SetFmt "r" (TRef RFlat "k");
          PyAppend "r" 9; Merge [("r", TList [TInt 4])]; SetFmt "c" (TRef RCopy "k"); Unset "k"; Probe].
 Definition run_b : runspec :=
-  mkrun [] [InjectIn "k" (CPtr (D 0)); SetFmt "m" (TDict [("x", TRef RPy "k")]);
+  mkrun [] [InjectIn TPIn "k" (CPtr (D 0)); SetFmt "m" (TDict [("x", TRef RPy "k")]);
             Defaults [("m", TDict [("y", TInt 1)])]; PyAppend "k" 7; Probe].
 
 Example C12_no_def_mutation_nonvacuous :
@@ -108,7 +133,7 @@ Proof. cbv zeta. split; [vm_compute; reflexivity|]. vm_compute. intro H. discrim
 
 Example C12_interleaving_nonvacuous :
   let dh := fst (load defs0 []) in
-  let sch := [(0, InjectIn "k" (CPtr (D 0))); (1, InjectIn "k" (CPtr (D 0)));
+  let sch := [(0, InjectIn TPIn "k" (CPtr (D 0))); (1, InjectIn TPIn "k" (CPtr (D 0)));
               (1, PyAppend "k" 7); (0, AppendKey "k" (TInt 3)); (0, Probe); (1, Probe)]%nat in
   fst (sched_run step dh (fun _ => empty_priv) sch) = dh /\
   o_final (result_of dh (snd (sched_run step dh (fun _ => empty_priv) sch) 0%nat)) =
@@ -133,7 +158,7 @@ Proof. vm_compute. split; reflexivity. Qed.
 (* HISTORICAL witness (not a property of the current code): on the pre-d9572b0 machine
    [step_aliasing] the run `in: {k: [1, 2]}` + append 3 changed the definition heap, and the
    same run made again saw [1, 2, 3] instead of [1, 2]; on [step] it does not. *)
-Definition witness_run : runspec := mkrun [] [InjectIn "k" (CPtr (D 0)); AppendKey "k" (TInt 3)].
+Definition witness_run : runspec := mkrun [] [InjectIn TPIn "k" (CPtr (D 0)); AppendKey "k" (TInt 3)].
 Example C12_why_the_repair_was_needed :
   let dh := fst (load defs0 []) in
   fst (exec step_aliasing dh (start witness_run) (r_ops witness_run)) = [OList [CInt 1; CInt 2; CInt 3]] /\
